@@ -36,13 +36,13 @@ var algos = []int32{int32(sbom.HashAlgorithm_SHA1), int32(sbom.HashAlgorithm_SHA
 
 // variant describes a node of the alphabet.
 type variant struct {
-	H    [2]int // per algorithm: 0 absent, 1 "", 2 h1, 3 h2
+	H    [2]int // per algorithm: 0 absent, 1 "", 2 h1, 3 h2, 4 h1 in upper case
 	Purl int    // 0 absent, 1 p1, 2 p2
 	File bool
 }
 
 func (v variant) String() string {
-	hv := []string{"-", "''", "h1", "h2"}
+	hv := []string{"-", "''", "h1", "h2", "H1"}
 	k := "pkg"
 	if v.File {
 		k = "file"
@@ -58,7 +58,7 @@ func (v variant) build(id string) *sbom.Node {
 		n.Type = sbom.Node_FILE
 	}
 	for i, a := range algos {
-		vals := []string{"", "", h1, h2}
+		vals := []string{"", "", h1, h2, strings.ToUpper(h1)}
 		if v.H[i] != 0 {
 			if n.Hashes == nil {
 				n.Hashes = map[int32]string{}
@@ -194,9 +194,9 @@ func Run(c *engine.Ctx) {
 		rec(0)
 	}
 
-	full := variants([]int{0, 1, 2, 3}, []int{0, 1, 2}, []bool{false, true})
-	noEmpty := variants([]int{0, 2, 3}, []int{0, 1, 2}, []bool{false, true})
-	small := variants([]int{0, 2, 3}, []int{0, 1}, []bool{false})
+	full := variants([]int{0, 1, 2, 3, 4}, []int{0, 1, 2}, []bool{false, true})
+	noEmpty := variants([]int{0, 2, 3, 4}, []int{0, 1, 2}, []bool{false, true})
+	small := variants([]int{0, 2, 3, 4}, []int{0, 1}, []bool{false})
 	smallK := variants([]int{0, 2, 3}, []int{0, 1}, []bool{false, true})
 	if !c.Thorough() {
 		matchGroup("match-n1-full", full, full, 1)
